@@ -260,3 +260,9 @@ package core
 //@ at r0 assert [this-controllers-run-under-the-given-context] r0.c == c && r0.ctx == ctx
 //@ at rk assert [restarts-are-runs-of-the-same-controller-under-the-same-context] rk.c == c && rk.ctx == ctx
 //@ ensures [one-shot-is-exactly-one-run] !c.opts.FetcherOptions.Continuous ==> result == r0.res && !rk.called
+
+//@ func NewController
+//@ props C20
+//@ requires plClient != nil
+//@ fresh result
+//@ ensures [a-controller-over-exactly-the-given-parts] result != nil && result.opts == opts && result.ctClient == ctClient && result.plClient == plClient && result.ef == ef
